@@ -45,7 +45,7 @@ class Worker:
         exe = build.binary(self.layer)
         env = dict(os.environ)
         env.setdefault("RUST_BACKTRACE", "0")
-        if self.layer == "asan":
+        if self.layer.startswith("asan"):
             env["ASAN_OPTIONS"] = "detect_leaks=0:abort_on_error=1:halt_on_error=1"
         self.proc = subprocess.Popen(
             [exe, "--stack-kib", str(self.stack_kib)] + self.extra_args,
